@@ -378,6 +378,9 @@ def next_job_batch():
         jobs = {job.tag: job for job in que}
         for job in filter(lambda j: j.get('todo'), que):
             available = job.get('todo').copy()
+            # a target this job is still executing waits for that result
+            for target in job.get('doing'):
+                available.discard(target)
             for dep in jobs.keys() & job.get('ancestry'):
                 for target in job.get('todo'):
                     dependency = find(dep)
